@@ -86,9 +86,13 @@ def generate(rng, tier, idx):
             # directory, or cached per name, mixes the two up - possibly only in one order of the batch.
             files.append({"path": (d1 + "/" if d1 else "") + "mid.ucg", "role": "lib", "uid": "mid" + rng.token(5), "shape": "int", "out": None,
                           "imports": [{"target": a, "spelling": "plain"}], "std": False, "fail": None, "reexport": True})
+            mid_i = len(files) - 1
             files.append({"path": (d2 + "/" if d2 else "") + "uses_mid.ucg", "role": "entry", "uid": "um" + rng.token(5), "shape": "int", "out": "json",
-                          "imports": [{"target": len(files) - 1, "spelling": rng.choice(["plain", "dot", "dotdot"])}, {"target": b, "spelling": "plain"}],
+                          "imports": [{"target": mid_i, "spelling": rng.choice(["plain", "dot", "dotdot"])}, {"target": b, "spelling": "plain"}],
                           "std": False, "fail": None})
+            # a second importer of that library, living next to it: whoever gets there first fills the shared caches
+            files.append({"path": (d1 + "/" if d1 else "") + "uses_mid_local.ucg", "role": "entry", "uid": "ul" + rng.token(5), "shape": "int", "out": "yaml",
+                          "imports": [{"target": mid_i, "spelling": "plain"}], "std": False, "fail": None})
             n = len(files)
         if files[0]["role"] == "lib":
             files[0]["role"], files[0]["out"] = "entry", "json"
